@@ -23,6 +23,8 @@ for m in sorted(rows):
         meta = json.load(open(mp))
     what = (meta.get('summary', '')[:110] + ' — needs: ' + meta.get('needs', '')[:110]).replace('|', '/').replace('\n', ' ')
     res = 'caught' if 'exit=1' in p[2] else ('MISSED' if 'exit=0' in p[2] else p[2])
+    if meta.get('status', {}).get('neutralised_by') and 'exit=0' in p[2]:
+        res = 'no longer a violation: neutralised by ' + meta['status']['neutralised_by'] + '; caught on the tree it was written for'
     viol = (p[4] if len(p) > 4 else '').split('/')[-1].rsplit('-', 1)[0]
     out.append('| %s | %s | %s | %s (%s) | %s |' % (m, what, p[1], res, p[3] if len(p) > 3 else '', viol))
 s = open(os.path.join(V, 'DESIGN.md')).read()
